@@ -163,7 +163,8 @@ def calc_intensity(detector, scatterer, medium_index=None, illum_wavelen=None,
     field = calc_field(detector, scatterer, medium_index=medium_index,
                        illum_wavelen=illum_wavelen,
                        illum_polarization=illum_polarization, theory=theory)
-    intensity = (np.abs(field.sel(vector=['x', 'y']))**2).sum(dim=vector)
+    intensity = (np.abs(field.sel(vector=['x', 'y']))**2).sum(
+        dim=vector, skipna=False)
     return finalize(field, intensity)
 
 
@@ -340,7 +341,8 @@ def scattered_field_to_hologram(scat, ref):
         The reference field
     """
     total_field = scat + ref
-    holo = (np.abs(total_field.sel(vector=['x', 'y']))**2).sum(dim=vector)
+    holo = (np.abs(total_field.sel(vector=['x', 'y']))**2).sum(
+        dim=vector, skipna=False)
     return holo
 
 
